@@ -345,6 +345,46 @@ pub fn run() {
       expect(&run, &cnt, &format!("date-time-in-range:{}", zone_class), &format!("@\"{}\" in [@\"{}\"..@\"{}\"]", ta, tb, ta), &e_in(&s), &exp, json!({"engine":"c15","text":what}));
     }
   });
+  // D2. membership of a date and time value in intervals of date and time values, all three written in offsets up to 22 hours
+  // apart a few hours around midnight: the instants decide, not the days and times as written
+  {
+    let mut lat: Vec<(String, i128, Value)> = vec![];
+    for day in 1..=4 {
+      for hm in ["01:00:00", "23:00:00"] {
+        for (zt, off) in [("-10:00", -36000i64), ("Z", 0), ("+12:00", 43200), ("+05:30", 19800)] {
+          let text = format!("2021-06-{:02}T{}{}", day, hm, zt);
+          if let (Ok(r), Ok(v)) = (parse_date_time(&text, &crate::engines::c14::known_zone), FeelDateTime::try_from(text.as_str())) {
+            lat.push((text, instant(&r, off), Value::DateTime(v)));
+          }
+        }
+      }
+    }
+    (0..lat.len()).into_par_iter().for_each(|i| {
+      let forms: Vec<(&str, Evaluator, bool, bool)> = vec![
+        ("a between b and c", prep("a between b and c"), true, true),
+        ("a in [b..c]", prep("a in [b..c]"), true, true),
+        ("a in (b..c)", prep("a in (b..c)"), false, false),
+        ("a in (b..c]", prep("a in (b..c]"), false, true),
+        ("a in [b..c)", prep("a in [b..c)"), true, false),
+      ];
+      let (ta, ia, va) = &lat[i];
+      for (tb, ib, vb) in &lat {
+        for (tc, ic, vc) in &lat {
+          cnt.cases.fetch_add(1, Ordering::Relaxed);
+          let s = scope_abc(&[("a", va.clone()), ("b", vb.clone()), ("c", vc.clone())]);
+          for (text, e, lc, uc) in &forms {
+            let exp = (if *lc { ib <= ia } else { ib < ia }) && (if *uc { ia <= ic } else { ia < ic });
+            let shown = match *text {
+              "a between b and c" => "A between B and C".to_string(),
+              other => other.replace('a', "A").replace('b', "B").replace('c', "C"),
+            };
+            let what = shown.replace('A', &format!("@\"{}\"", ta)).replace('B', &format!("@\"{}\"", tb)).replace('C', &format!("@\"{}\"", tc));
+            expect(&run, &cnt, &format!("date-time-in-interval-of-other-offsets:{}", text), &what, &e(&s), &exp.to_string(), json!({"engine":"c15","text":what}));
+          }
+        }
+      }
+    });
+  }
   // properties of date-times
   {
     let e = prep("[a.year, a.month, a.day, a.weekday, a.hour, a.minute, a.second]");
